@@ -164,9 +164,12 @@ func liveCase(c *rp.Ctx, i int, cs *amf0x.Case) rp.Result {
 		if len(want) != st.Size {
 			amf0x.Broken("case %d step %d: encoding has %d bytes, size says %d", i, k, len(want), st.Size)
 		}
-		if _, f := marshalled(i, fmt.Sprintf("node #%d", st.N), a, want, free); f != nil {
+		got, f := marshalled(i, fmt.Sprintf("node #%d", st.N), a, want, free)
+		if f != nil {
 			return f.What
 		}
+		// the bytes belong to the caller: later calls of the history must not change them
+		c.Hold(i, fmt.Sprintf("bytes MarshalBinary returned for node #%d at step %d", st.N, k), got)
 		return ""
 	})
 	if k >= 0 {
